@@ -37,10 +37,11 @@ TOL = 1e-11
 
 def _single_on_plane_sample(spec, violation):
     """Known finding: unfolding a co-located record that is one cell thick on an x/y electric plane."""
-    if violation.get("monitor") != "unfolded_record_shape" or spec["axis"] not in (0, 1):
+    if violation.get("monitor") != "unfolded_record_shape":
         return False
     d = next((x for x in spec["detectors"] if x["name"] == violation.get("detector")), None)
-    return bool(d) and d["exact"] and d["box"][spec["axis"]][1] - spec["N"] == 1
+    planes = [(spec["axis"], spec["N"])] + ([(spec["axis2"], spec["N2"])] if spec.get("axis2") is not None else [])
+    return bool(d) and d["exact"] and any(ax in (0, 1) and d["box"][ax][1] - n == 1 for ax, n in planes)
 
 
 KNOWN_PREDICATES = {"single_on_plane_sample": _single_on_plane_sample}
@@ -49,23 +50,28 @@ KNOWN_PREDICATES = {"single_on_plane_sample": _single_on_plane_sample}
 def generate(rng, tier, index):
     a = index % 3
     N = int(rng.integers(4, 8))
+    # one scene in three has a second electric plane (quarter domain): the two planes share an edge
+    a2 = int((a + 1 + int(rng.integers(0, 2))) % 3) if rng.uniform() < 0.34 else None
+    N2 = int(rng.integers(4, 8))
+    sym = {a: N} if a2 is None else {a: N, a2: N2}
     shape = [int(rng.integers(3, 8)) for _ in range(3)]
-    shape[a] = 2 * N
+    for ax_, n_ in sym.items():
+        shape[ax_] = 2 * n_
     faces = specgen.rand_faces(rng, kinds_pair=("periodic",), kinds_single=("pec", "pmc", "none"), pml=(2, 3))
-    ax = "xyz"[a]
-    # the symmetry axis never wraps: independent terminating boundaries on its two faces
-    for d in ("min", "max"):
-        k = specgen.choice(rng, ["pec", "pmc", "none", "pml"])
-        faces[f"{d}_{ax}"] = {"kind": k, **({"thickness": 2} if k == "pml" else {})}
+    # a symmetry axis never wraps: independent terminating boundaries on its two faces
+    for ax_ in sym:
+        for d in ("min", "max"):
+            k = specgen.choice(rng, ["pec", "pmc", "none", "pml"])
+            faces[f"{d}_{'xyz'[ax_]}"] = {"kind": k, **({"thickness": 2} if k == "pml" else {})}
     for b, bx in enumerate("xyz"):
-        if b != a:
+        if b not in sym:
             t = sum(faces[f"{d}_{bx}"].get("thickness", 0) for d in ("min", "max"))
             shape[b] = max(shape[b], t + 2)
     if rng.uniform() < 0.3:
         edges = []
         for b, n in enumerate(shape):
-            if b == a:
-                w = specgen.SPACING * np.exp(rng.uniform(-0.3, 0.3, size=N))
+            if b in sym:
+                w = specgen.SPACING * np.exp(rng.uniform(-0.3, 0.3, size=sym[b]))
                 w = np.concatenate([w[::-1], w])
             else:
                 w = specgen.SPACING * np.exp(rng.uniform(-0.3, 0.3, size=n))
@@ -74,23 +80,30 @@ def generate(rng, tier, index):
         grid = {"kind": "rect", "edges": edges}
     else:
         grid = {"kind": "uniform", "spacing": specgen.SPACING}
-    T = int(rng.integers(2, max(3, N - 1)))
+    Nmin = min(sym.values())
+    T = int(rng.integers(2, max(3, Nmin - 1)))
     tier_e = specgen.choice(rng, ["iso", "diag"])
-    mats = {"seed": int(rng.integers(0, 2**31)), "eps_tier": tier_e, "const_axis": a}
+    mats = {"seed": int(rng.integers(0, 2**31)), "eps_tier": tier_e, "const_axis": a if a2 is None else [a, a2]}
     if rng.uniform() < 0.4:
         mats["mu_tier"] = specgen.choice(rng, ["iso", "diag"])
     dets = []
     for i in range(int(rng.integers(1, 3))):
-        k = int(rng.integers(1, max(2, N - T - 1)))
-        if k == 1 and a in (0, 1) and rng.uniform() < 0.85:
-            k = 2  # a single on-plane sample is a degenerate case (see KNOWN_PREDICATES); keep it rare
         box = specgen.rand_box(rng, shape, min_size=1)
-        box[a] = [N - k, N + k]
+        for ax_, n_ in sym.items():
+            k = int(rng.integers(1, max(2, n_ - T - 1)))
+            if k == 1 and ax_ in (0, 1) and rng.uniform() < 0.85:
+                k = 2  # a single on-plane sample is a degenerate case (see KNOWN_PREDICATES); keep it rare
+            box[ax_] = [n_ - k, n_ + k]
         comps = specgen.rand_components(rng)
+        if a2 is not None and i == 0:
+            comps = list(specgen.ALL_COMPONENTS)  # the shared edge of two planes matters for one component only: record them all
         if rng.uniform() < 0.6:  # the component tuple is a set as far as the record layout goes: give it in arbitrary order
             comps = [comps[int(j)] for j in rng.permutation(len(comps))]
         dets.append({"kind": "field", "name": f"d{i}", "box": box, "exact": True, "reduce": False, "components": comps})
-    return {"shape": shape, "grid": grid, "steps": T, "faces": faces, "key": 0, "axis": a, "N": N, "rand_materials": mats, "detectors": dets, "sources": [], "init_seed": int(rng.integers(0, 2**31))}
+    spec = {"shape": shape, "grid": grid, "steps": T, "faces": faces, "key": 0, "axis": a, "N": N, "rand_materials": mats, "detectors": dets, "sources": [], "init_seed": int(rng.integers(0, 2**31))}
+    if a2 is not None:
+        spec["axis2"], spec["N2"] = a2, N2
+    return spec
 
 
 def shrink(spec):
@@ -124,16 +137,21 @@ def execute(spec):
     from fdsim import scene as sc, driver as dr
 
     a, N, T = spec["axis"], spec["N"], spec["steps"]
+    planes = {a: N}
+    if spec.get("axis2") is not None:
+        planes[int(spec["axis2"])] = int(spec["N2"])
     shape = tuple(spec["shape"])
     rm = spec["rand_materials"]
     full_arrays = sc.random_material_arrays({"mode": "random", **rm}, shape, np.float64)
     sl = [slice(None)] * 4
-    sl[1 + a] = slice(N, 2 * N)
+    for ax_, n_ in planes.items():
+        sl[1 + ax_] = slice(n_, 2 * n_)
     red_arrays = {k: (None if v is None else v[tuple(sl)].copy()) for k, v in full_arrays.items()}
     base = {k: v for k, v in spec.items() if k not in ("rand_materials",)}
     base["materials"] = {"mode": "objects", "objects": [], "background": sc._tier_material(rm.get("eps_tier"), rm.get("mu_tier"), None, None)}
     sym = [0, 0, 0]
-    sym[a] = -1
+    for ax_ in planes:
+        sym[ax_] = -1
     full_spec = copy.deepcopy(base)
     red_spec = copy.deepcopy(base)
     red_spec["symmetry"] = sym
@@ -148,16 +166,17 @@ def execute(spec):
     R.arrays = sc.overwrite_materials(R.arrays, red_arrays)
     F = sc.apply_scene(F, reapply=True)
     R = sc.apply_scene(R, reapply=True)
-    if tuple(R.shape)[a] != N:
+    if any(tuple(R.shape)[ax_] != n_ for ax_, n_ in planes.items()):
         from fdsim import env
 
         raise env.HarnessError(f"reduced shape {R.shape} unexpected")
     Er, Hr = sc.random_fields(R, spec["init_seed"], scale=1.0)
-    # parity consistency on the plane itself: the components sampled *on* an electric plane and odd
+    # parity consistency on each plane itself: the components sampled *on* an electric plane and odd
     # across it must vanish there - tangential E (zeroed by the wall above) and normal H
-    hidx = [slice(None)] * 3
-    hidx[a] = 0
-    Hr = Hr.at[(a, *hidx)].set(0)
+    for ax_ in planes:
+        hidx = [slice(None)] * 3
+        hidx[ax_] = 0
+        Hr = Hr.at[(ax_, *hidx)].set(0)
     symt = tuple(sym)
     Ef = fdtdx.unfold_fields(Er, symt, "E")
     Hf = fdtdx.unfold_fields(Hr, symt, "H")
@@ -172,7 +191,8 @@ def execute(spec):
 
     def region(n):
         idx = [slice(None)] * 4
-        idx[1 + a] = slice(n + 2, None)
+        for ax_ in planes:
+            idx[1 + ax_] = slice(n + 2, None)
         return tuple(idx)
 
     for n in range(1, T + 1):
@@ -188,7 +208,8 @@ def execute(spec):
             if not (d <= TOL):
                 diff = np.abs(fF[nm][reg] - un[reg])
                 w = [int(x) for x in np.unravel_index(int(np.argmax(diff)), diff.shape)]
-                w[1 + a] += n + 2
+                for ax_ in planes:
+                    w[1 + ax_] += n + 2
                 viol.append({"monitor": "unfolded_fields_differ_from_full_run", "step": n, "field": nm, "metric": "rel_diff", "value": d, "tolerance": TOL, "worst_cell": w})
         if viol:
             break
@@ -201,17 +222,17 @@ def execute(spec):
             if a_.shape != b_.shape:
                 viol.append({"monitor": "unfolded_record_shape", "detector": d_["name"], "full": list(a_.shape), "unfolded": list(b_.shape)})
                 continue
-            lo = d_["box"][a][0]
             scale = float(np.max(np.abs(a_))) or None
             worst = 0.0
-            for n in range(1, T + 1):  # record index n-1 = after step n; valid cells: full index >= n + 2
-                cut = max(0, n + 2 - lo)
-                if a in (0, 1):
-                    # co-located samples sit *on* an x/y electric plane: the outermost mirrored sample has its
-                    # partner outside the kept region and is documented to be filled by repeating its neighbour
-                    cut = max(cut, 1)
+            for n in range(1, T + 1):  # record index n-1 = after step n; valid cells: full index >= n + 2 along every symmetry axis
                 idx = [slice(None)] * 4
-                idx[1 + a] = slice(cut, None)
+                for ax_ in planes:
+                    cut = max(0, n + 2 - d_["box"][ax_][0])
+                    if ax_ in (0, 1):
+                        # co-located samples sit *on* an x/y electric plane: the outermost mirrored sample has its
+                        # partner outside the kept region and is documented to be filled by repeating its neighbour
+                        cut = max(cut, 1)
+                    idx[1 + ax_] = slice(cut, None)
                 ra, rb = a_[n - 1][tuple(idx)], b_[n - 1][tuple(idx)]
                 if ra.size:
                     worst = max(worst, dr.rel_diff(ra, rb, scale))
@@ -220,6 +241,8 @@ def execute(spec):
             if not (worst <= TOL):
                 viol.append({"monitor": "unfolded_records_differ_from_full_run", "detector": d_["name"], "metric": "rel_diff", "value": worst, "tolerance": TOL})
     stats["fault_lockstep_replicas"] = 2
+    stats["probe_two_electric_planes"] = int(len(planes) == 2)
+    stats["probe_two_planes_on_x_and_y"] = int(set(planes) == {0, 1})
     stats["probe_axis_" + "xyz"[a]] = 1
     stats["probe_nonuniform"] = int(spec["grid"]["kind"] == "rect")
     stats["probe_discarded_half_ends_differently"] = int(spec["faces"][f"min_{'xyz'[a]}"]["kind"] != spec["faces"][f"max_{'xyz'[a]}"]["kind"])
